@@ -173,6 +173,8 @@ PREDICATES = {
     'student_t_dof_is_1': lambda sig: _pf(sig, 0) == 1.0,
     'geometric_p_below_2p-53': lambda sig: 0.0 < (_pf(sig, 0) or 0.0) < 2.0 ** -53,
     'dirichlet_gamma_underflow_regime': lambda sig: (sig.get('alpha_min') or 1.0) <= (0.25 if sig.get('ty') == 'f32' else 0.03),
+    'dirichlet_params_min_le_0p25': lambda sig: min([float(x) for x in sig.get('params') or [1.0]]) <= 0.25,
+    'hypergeometric_N_ge_2p53': lambda sig: (_pf(sig, 0) or 0) >= 2.0 ** 53,
     'poisson_lambda_ge_1e14': lambda sig: (_pf(sig, 0) or 0) >= 1e14,
 }
 
